@@ -621,6 +621,18 @@ func runC08(ctx *Ctx) error {
 		if !ctx.Thorough() && vi >= 6 {
 			break
 		}
+		if len(s) > 3000 {
+			// a long stream (the tree-rebuild input): a sample of cuts and flips instead of every one
+			// (every one would be hundreds of thousands of streams of tens of kilobytes)
+			for j := 0; j < 150; j++ {
+				add("truncated", s[:r.Intn(len(s))], validCrc[vi])
+				f := append([]byte(nil), s...)
+				k := r.Intn(len(s) * 8)
+				f[k/8] ^= 1 << uint(k%8)
+				add("bitflip", f, validCrc[vi])
+			}
+			continue
+		}
 		for k := 0; k < len(s); k++ {
 			add("truncated", s[:k], validCrc[vi])
 		}
